@@ -1041,8 +1041,10 @@ class Walker:
             pos = a.posonlyargs + a.args
             defaults = dict(zip([x.arg for x in reversed(pos)], reversed(a.defaults)))
             defaults.update({x.arg: d for x, d in zip(a.kwonlyargs, a.kw_defaults) if d is not None})
-            for p in self.entry.params:
+            for k_p, p in enumerate(self.entry.params):
                 if p not in known and p in defaults and isinstance(defaults[p], ast.Constant):
+                    if k_p < len(known) and known[k_p] not in self.entry.params and p in [x.arg for x in pos]:
+                        continue  # the documented parameter of that position under a new name (`I` -> `indexes`): not an extension
                     env[p] = ("const", defaults[p].value)
                     self.extension_params[p] = env[p]
         self.fnstack.append(self.entry)
@@ -2387,6 +2389,20 @@ class Walker:
             l, r = sorted([l, r], key=tkey)
         return ("bin", op, l, r)
 
+    def _typed_nonnull(self, pname: str) -> bool:
+        """The entry function declares `pname: str` / `int` / `float` / `bool` (not Optional) with a default that is not None."""
+        a = self.entry.node.args
+        pos = a.posonlyargs + a.args
+        defaults = dict(zip([x.arg for x in reversed(pos)], reversed(a.defaults)))
+        defaults.update({x.arg: d for x, d in zip(a.kwonlyargs, a.kw_defaults) if d is not None})
+        for x in pos + a.kwonlyargs:
+            if x.arg == pname:
+                ann = unparse(x.annotation) if x.annotation is not None else ""
+                d = defaults.get(pname)
+                if ann in ("str", "int", "float", "bool") and not (isinstance(d, ast.Constant) and d.value is None):
+                    return True
+        return False
+
     def _record_attr(self, base: Term, e: ast.Attribute) -> Optional[Term]:
         """A field of a NamedTuple record by name (the position every record class of that size gives the name), or a
         read-only property of the one record class of that size that has it."""
@@ -2619,6 +2635,8 @@ class Walker:
                     and left[1][1] in (("builtin", "enumerate"), ("builtin", "zip")))
                 if o in ("is", "is not") and nonish(right) and counter:
                     parts.append(("const", o == "is not"))  # a loop counter is a number, never None
+                elif o in ("is", "is not") and nonish(right) and left[0] == "param" and self._typed_nonnull(left[1]):
+                    parts.append(("const", o == "is not"))  # a parameter annotated with a plain type (`distance: str`) is not None
                 elif o in ("is", "is not") and nonish(right) and (nonish(left) or left[0] in ("alloc", "new", "tuple", "dict")
                                                                    or (left[0] != "sel" and never_none(left))):
                     parts.append(("const", nonish(left) == (o == "is")))
@@ -3854,6 +3872,9 @@ def never_none(t: Term) -> bool:
         return True  # `I[i].item()`: the Python number held in an index / label array
     if t[0] == "sel":
         return never_none(t[2]) and never_none(t[3])
+    if (t[0] == "iter" and t[1][0] == "call" and t[1][1] == ("builtin", "range")) or (
+            t[0] == "iterproj" and t[3] in ((0,), ("pos",)) and t[1][0] == "call" and t[1][1] in (("builtin", "enumerate"), ("builtin", "zip"))):
+        return True  # a loop counter
     if t[0] == "attr" and t[2] in NODE_NUMBER_FIELDS and Walker._is_node_term(t[1]):
         return True  # a numeric field of a node: its setter accepts numbers only (rule PROP-setter)
     if _matrix_rooted(t):
